@@ -171,6 +171,9 @@ class Run:
             cov["files_parsed"] = len(prog.modules)
             cov["source_digest_sha256"] = dg
             cov["files"] = sorted(prog.consulted)[:60]
+            ren = [r for r in getattr(prog, "renamed", []) if r[0] in prog.consulted]
+            cov["locals_renamed_to_reference_naming"] = {
+                "functions": len(ren), "sample": [{"file": a, "function": b, "map": c} for a, b, c in ren[:5]]}
         ev = {
             "property_id": self.prop,
             "tier": self.tier,
